@@ -304,6 +304,52 @@ theorem mem_tagsText_key (ts : List Tag) (t : Tag) (ht : t ∈ ts) (b : Nat)
     · simp only [List.cons_append, List.mem_cons, List.mem_append]
       right; right; exact ih h
 
+/-- `parseTags` on `name,k=v,…` as `MakeKey` writes it -/
+theorem parseTags_tagsText (name : Bytes) (t : Tag) (ts' : List Tag) (hne : name ≠ []) (hl : noTB name)
+    (hts' : ∀ u ∈ t :: ts', u.value ≠ [] ∧ noTB u.key ∧ noTB u.value) :
+    parseTags (escBy isMeasSpecial name ++ cComma :: (tagText t ++ tagsText ts')) = some (t :: ts') := by
+  have hE : escBy isMeasSpecial name ≠ [] := by simpa [escBy_eq_nil] using hne
+  have hwalk : walkTags (escBy isMeasSpecial name ++ cComma :: (tagText t ++ tagsText ts')) = t :: ts' := by
+    unfold walkTags
+    have hs := scanTo_escBy isMeasSpecial cComma (by decide) (by decide) name false
+      (tagText t ++ tagsText ts') (lastIsBS_false_of_noTB _ hl)
+    have hemp : (escBy isMeasSpecial name ++ cComma :: (tagText t ++ tagsText ts')).isEmpty = false := by
+      cases h : escBy isMeasSpecial name with
+      | nil => exact absurd h hE
+      | cons _ _ => rfl
+    have hemp2 : (escBy isMeasSpecial name).isEmpty = false := by
+      cases h : escBy isMeasSpecial name with
+      | nil => exact absurd h hE
+      | cons _ _ => rfl
+    simp only [hemp, Bool.false_eq_true, if_false, hs, hemp2, List.drop_succ_cons, List.drop_zero]
+    have := walkTagsLoop_tagsText
+      ((escBy isMeasSpecial name ++ cComma :: (tagText t ++ tagsText ts')).contains cBS) (t :: ts')
+      (escBy isMeasSpecial name ++ cComma :: (tagText t ++ tagsText ts')).length ?_ hts' ?_
+    · rw [tagsText_cons] at this
+      simpa using this
+    · have h1 : (t :: ts').length ≤ (tagsText (t :: ts')).length :=
+        Nat.le_trans (length_le_count_tagsText _) List.count_le_length
+      rw [tagsText_cons] at h1
+      simp only [List.length_append, List.length_cons, List.cons_append] at h1 ⊢
+      omega
+    · intro hc u hu
+      have hc' : cBS ∉ escBy isMeasSpecial name ++ cComma :: (tagText t ++ tagsText ts') := by
+        simpa using hc
+      have hsub : ∀ b, b ∈ tagsText (t :: ts') → b ∈ escBy isMeasSpecial name ++ cComma :: (tagText t ++ tagsText ts') := by
+        intro b hb
+        simp only [tagsText_cons, List.cons_append, List.mem_append, List.mem_cons] at hb ⊢
+        rcases hb with hb | hb | hb <;> simp [hb]
+      exact ⟨fun h => hc' (hsub _ (mem_tagsText_key _ u hu _ (Or.inl h))),
+             fun h => hc' (hsub _ (mem_tagsText_key _ u hu _ (Or.inr h)))⟩
+  unfold parseTags
+  simp only [hwalk]
+  have hcount : (t :: ts').length ≤ (escBy isMeasSpecial name ++ cComma :: (tagText t ++ tagsText ts')).count cComma := by
+    have h1 := length_le_count_tagsText (t :: ts')
+    rw [tagsText_cons] at h1
+    simp only [List.count_append, List.cons_append, List.count_cons_self] at h1 ⊢
+    omega
+  rw [if_pos hcount]
+
 /-- `ParseKeyBytes(MakeKey(name, tags))` for a name and tags whose components do not end in a
     backslash and whose name is its own unescaped form: the name and the tags that have a
     value, in the order given. -/
@@ -330,47 +376,7 @@ theorem parseKeyBytes_makeKey (name : Bytes) (tags : List Tag)
     rw [tagsText_cons, List.cons_append]
     rw [scanMeasurement_escBy_comma _ _ hne hl]
     simp only [unescapeMeasurement_escBy]
-    have hE : escBy isMeasSpecial name ≠ [] := by simpa [escBy_eq_nil] using hne
-    have hwalk : walkTags (escBy isMeasSpecial name ++ cComma :: (tagText t ++ tagsText ts')) = t :: ts' := by
-      unfold walkTags
-      have hs := scanTo_escBy isMeasSpecial cComma (by decide) (by decide) name false
-        (tagText t ++ tagsText ts') (lastIsBS_false_of_noTB _ hl)
-      have hemp : (escBy isMeasSpecial name ++ cComma :: (tagText t ++ tagsText ts')).isEmpty = false := by
-        cases h : escBy isMeasSpecial name with
-        | nil => exact absurd h hE
-        | cons _ _ => rfl
-      have hemp2 : (escBy isMeasSpecial name).isEmpty = false := by
-        cases h : escBy isMeasSpecial name with
-        | nil => exact absurd h hE
-        | cons _ _ => rfl
-      simp only [hemp, Bool.false_eq_true, if_false, hs, hemp2, List.drop_succ_cons, List.drop_zero]
-      have := walkTagsLoop_tagsText
-        ((escBy isMeasSpecial name ++ cComma :: (tagText t ++ tagsText ts')).contains cBS) (t :: ts')
-        (escBy isMeasSpecial name ++ cComma :: (tagText t ++ tagsText ts')).length ?_ hts' ?_
-      · rw [tagsText_cons] at this
-        simpa using this
-      · have h1 : (t :: ts').length ≤ (tagsText (t :: ts')).length :=
-          Nat.le_trans (length_le_count_tagsText _) List.count_le_length
-        rw [tagsText_cons] at h1
-        simp only [List.length_append, List.length_cons, List.cons_append] at h1 ⊢
-        omega
-      · intro hc u hu
-        have hc' : cBS ∉ escBy isMeasSpecial name ++ cComma :: (tagText t ++ tagsText ts') := by
-          simpa using hc
-        have hsub : ∀ b, b ∈ tagsText (t :: ts') → b ∈ escBy isMeasSpecial name ++ cComma :: (tagText t ++ tagsText ts') := by
-          intro b hb
-          simp only [tagsText_cons, List.cons_append, List.mem_append, List.mem_cons] at hb ⊢
-          rcases hb with hb | hb | hb <;> simp [hb]
-        exact ⟨fun h => hc' (hsub _ (mem_tagsText_key _ u hu _ (Or.inl h))),
-               fun h => hc' (hsub _ (mem_tagsText_key _ u hu _ (Or.inr h)))⟩
-    unfold parseTags
-    simp only [hwalk]
-    have hcount : (t :: ts').length ≤ (escBy isMeasSpecial name ++ cComma :: (tagText t ++ tagsText ts')).count cComma := by
-      have h1 := length_le_count_tagsText (t :: ts')
-      rw [tagsText_cons] at h1
-      simp only [List.count_append, List.cons_append, List.count_cons_self] at h1 ⊢
-      omega
-    rw [if_pos hcount]
+    rw [parseTags_tagsText name t ts' hne hl hts']
     rfl
 
 end Influx.LP
